@@ -276,6 +276,9 @@ fn run_typed<F: Float>(case: &Case, viols: &mut Vec<Violation>) -> Counters {
         let at = json!({"kind": kname, "k": kk, "nn": nn_name});
         let params = Kernel::<F>::params_with_nn(nn.clone()).kind(kind.clone()).method(method_of::<F>(case));
         bump(&mut cnt, "evals", 1);
+        if case.family.starts_with("lattice3x3_affine") {
+            bump(&mut cnt, "kernels_on_offset_data", 1);
+        }
         let kernel: Kernel<F> = match guarded(|| params.transform(x.view())) {
             Ok(k) => k,
             Err(p) => {
@@ -783,7 +786,7 @@ fn main() {
     ctx.maybe_replay(&replay_value);
     ctx.set_rule(
         "cases = (point set, float type, kernel method). Point sets: every subset of 2..5 (quick) / 2..6 (thorough) points of the 3x3 lattice, \
-         the generic-position image of each (constant jitter table), the empty record matrix, every multiset of 1..5 points of {0..4} on a line (duplicates up to 3x), \
+         the generic-position image of each (constant jitter table), the un-centred affine images offset + spacing x p of every 2..4-subset with (offset, spacing) in {(1e8,1) f64, (-1e6,0.5) f64, (1e3,0.125) f64+f32}, the empty record matrix, every multiset of 1..5 points of {0..4} on a line (duplicates up to 3x), \
          every subset of 2..5 / 2..6 of a pool of 7 three-feature points, and large sets above the neighbour-index leaf size of 16 (5x5 grid, its generic image, 20 points on a line in duplicate pairs, \
          generic 3x3x3 cube; thorough also 6x6, generic 6x6 and 7x7 grids). Kernel methods Linear, Gaussian(0.5), Gaussian(2) (thorough also 0.125, 8), Polynomial(c in {0,1}, d in {1,2,3}); f64 and f32. \
          Per case: Dense and Sparse(k) for EVERY 0<k<n with LinearSearch / KdTree / BallTree, owned kernel and view: every stored cell vs the reference kernel function, \
@@ -872,9 +875,30 @@ fn main() {
             }
         }
     }
+    // un-centred data: affine images offset + spacing * p of every subset of 2..4 lattice points
+    // (dyadic spacings: the coordinates stay exactly representable in the float type named, so the
+    // reference - computed from coordinate DIFFERENCES - is exact to rounding); the record norms
+    // exceed the pairwise distances by 4..8 orders of magnitude
+    let affine: [(f64, f64, &[&str]); 3] = [(1e8, 1.0, &["f64"]), (-1e6, 0.5, &["f64"]), (1e3, 0.125, &["f64", "f32"])];
+    let mut affine_sets = 0usize;
+    for ss in en::subsets_upto(9, 2, 4) {
+        for (off, sp, floats) in affine.iter() {
+            affine_sets += 1;
+            let p: Vec<Vec<f64>> = ss.iter().map(|&i| lat[i].iter().map(|&v| off + sp * v as f64).collect()).collect();
+            for f in floats.iter() {
+                for (k, p1, p2) in &methods {
+                    // the clustering sweep sees the same Gaussian matrices as on the unshifted lattice;
+                    // quick: f64 Gaussian only, thorough: everything
+                    let cluster = ctx.thorough() || (*f == "f64" && *k == "gaussian");
+                    cases.push(Case { family: format!("lattice3x3_affine({:e},{})", off, sp), points: p.clone(), dim: 2, float: f.to_string(), kernel: k.to_string(), p1: *p1, p2: *p2, cluster });
+                }
+            }
+        }
+    }
+    ctx.extra("affine_offset_point_sets", json!(affine_sets));
     // heaviest first (clustering sweeps on the largest sets), so the parallel sweep balances
     cases.sort_by_key(|c| std::cmp::Reverse(c.cluster as usize * 1000 + c.points.len()));
-    ctx.extra("point_sets", json!(sets.len() + big.len()));
+    ctx.extra("point_sets", json!(sets.len() + big.len() + affine_sets));
     ctx.extra("large_point_sets", json!(big.iter().map(|b| format!("{} (n={})", b.0, b.1.len())).collect::<Vec<_>>()));
     ctx.extra("cases_enumerated", json!(cases.len()));
 
